@@ -399,6 +399,7 @@ def run(ctx):
         "is built and no two fields come from the same parsed position (F1); demand, capacity and the capacity feature use one load type, the essential "
         "features contain capacity and transport with time windows enforced for Solomon/Li&Lim (F2); the rounding flag selects exactly between rounded and "
         "raw Euclidean distance (F3, evaluated over the flag); no Dimensions value that received slot writes is dropped (F4, all crates).")
+    ctx.explanation += ' The initial-solution reader visits every route token and every job (I1, no dropping adapter in the iterator types).'
     ctx.not_decided = "numeric equality of parsed values, Li&Lim pairing, initial-solution round trip."
     ctx.run("C13-F1", "record-field / builder-parameter liveness and distinct sources", f1_record_liveness, floor=15)
     ctx.run("C13-F2", "load type agreement; essential features (capacity, transport with time windows)", f2_load_types_and_features, floor=8)
